@@ -153,7 +153,49 @@ func genTCPConn(r *Rng, cfg []cfgKey, focus string) tcpConnSpec {
 }
 
 // cTCP: whole connections through the real StreamHandler on loopback sockets.
-func cTCP(ctx *Ctx, prop string) { cTCPInto(ctx, prop, 0, 0) }
+func cTCP(ctx *Ctx, prop string) {
+	cTCPInto(ctx, prop, 0, 0)
+	if prop == "C15" {
+		tcpFailingTarget(ctx)
+	}
+}
+
+// tcpFailingTarget: uploads towards a target connection that accepts K bytes and then fails every
+// write (monitor-only: the moment of failure makes status and close class schedule-dependent, the
+// counters are not): the proxy-to-target counter must be exactly what the connection accepted.
+func tcpFailingTarget(ctx *Ctx) {
+	r := ctx.Rng.Fork()
+	n := 16
+	if ctx.Thorough() {
+		n = 150
+	}
+	for i := 0; i < n; i++ {
+		cfg := genCfg(r, 2, 4)
+		pick := cfg[r.Intn(len(cfg))]
+		sp := tcpConnSpec{Kind: "honest", ConnectOK: true, Fin: true, Seed: uint32(r.U64()), C: pick.C, S: pick.S,
+			Chunks: [][2]int{{[]int{1, 100, 5000, 16383}[r.Intn(4)], int(r.U64() % 1000000)}, {16383, int(r.U64() % 1000000)}, {9000, int(r.U64() % 1000000)}},
+			Coalesce: r.Bool(), TOut: [2]int{[]int{0, 10, 3000}[r.Intn(3)], int(r.U64() % 1000000)}, TFirst: r.Bool(),
+			TFailAfter: []int{1, 99, 100, 4096, 16383, 16384, 20000, 30000}[r.Intn(8)]}
+		sp.Key = fmt.Sprintf("%d/%d", sp.C, sp.S)
+		cs := tcpCaseSpec{Cfg: cfg, Cap: 0, Conns: []tcpConnSpec{sp}}
+		obs := runTCPCase(&cs)
+		ctx.Count("failing-target:runs")
+		if len(obs) != 1 {
+			continue
+		}
+		ob := &obs[0]
+		rep := map[string]interface{}{"case": cs, "obs": ob}
+		if ob.Counters.ProxyTarget != ob.TargetAccepted {
+			ctx.Monitor("C15/proxy-target-bytes-on-failed-write", fmt.Sprintf("the target connection accepted %d bytes before its writes failed, the Closed report says %d were sent to the target", ob.TargetAccepted, ob.Counters.ProxyTarget), rep)
+		}
+		if ob.Counters.ClientProxy > int64(ob.RawSent) || ob.Counters.ProxyClient != int64(ob.RawRecv) {
+			ctx.Monitor("C15/counters-exceed-wire", fmt.Sprintf("counters %+v, client sent %d and received %d", ob.Counters, ob.RawSent, ob.RawRecv), rep)
+		}
+		if ob.Status == "OK" && ob.TargetAccepted < int64(sp.Chunks[0][0]+sp.Chunks[1][0]+sp.Chunks[2][0]) {
+			ctx.Monitor("C15/status-vs-outcome", "the upload was cut by a failing target connection but the connection is reported OK", rep)
+		}
+	}
+}
 
 // cTCPInto runs n TCP cases (0 = the tier's default) and numbers its case files from shard0.
 func cTCPInto(ctx *Ctx, prop string, nCases int, shard0 int) {
